@@ -1,4 +1,5 @@
 import SgVerif.C36.Model
+import SgVerif.C36.Segment
 import SgVerif.Common.Proto
 open SgVerif.Proto
 /-
@@ -40,6 +41,86 @@ def judge (q a : List String) : Verdict :=
     | _, _ => .bad
   | _ => .bad
 
+/-! whole-program lines for the address-level model (Segment.lean):
+   P <n> I <14 init values> <ops in script order>  =>  | <reads of rank 0> | <reads of rank 1> ...
+   ops: w r var val | r r var | ws r k val | rs r k | rr r k   (globals at 100 + var; sb of rank r at 1000 + 100 r, rb at 1050 + 100 r)
+        gg a b | gs a b | sg a b | sr a b | bc root | ring      (one copy callback per message, 4 cells)
+   The model is the implementation semantics `Seg.step` (by `segment_isolation` = private globals per rank). -/
+
+def cfgP : Seg.Cfg := ⟨100, 14⟩
+def sbAddr (r k : Nat) : Nat := 1000 + 100 * r + k
+def rbAddr (r k : Nat) : Nat := 1050 + 100 * r + k
+
+partial def parseP (n : Nat) : List String → Option (List Seg.Ev)
+  | [] => some []
+  | "w" :: r :: g :: v :: rest => do
+    let l ← parseP n rest
+    some (.resume (← r.toNat?) :: .store (← r.toNat?) (100 + (← g.toNat?)) (← v.toInt?) :: l)
+  | "r" :: r :: g :: rest => do
+    let l ← parseP n rest
+    some (.resume (← r.toNat?) :: .load (← r.toNat?) (100 + (← g.toNat?)) :: l)
+  | "ws" :: r :: k :: v :: rest => do
+    let l ← parseP n rest
+    some (.resume (← r.toNat?) :: .store (← r.toNat?) (sbAddr (← r.toNat?) (← k.toNat?)) (← v.toInt?) :: l)
+  | "rs" :: r :: k :: rest => do
+    let l ← parseP n rest
+    some (.resume (← r.toNat?) :: .load (← r.toNat?) (sbAddr (← r.toNat?) (← k.toNat?)) :: l)
+  | "rr" :: r :: k :: rest => do
+    let l ← parseP n rest
+    some (.resume (← r.toNat?) :: .load (← r.toNat?) (rbAddr (← r.toNat?) (← k.toNat?)) :: l)
+  | "gg" :: a :: b :: rest => do
+    let l ← parseP n rest
+    some (.commCopy (← a.toNat?) (← b.toNat?) 104 108 4 :: l)
+  | "gs" :: a :: b :: rest => do
+    let l ← parseP n rest
+    some (.commCopy (← a.toNat?) (← b.toNat?) 104 (rbAddr (← b.toNat?) 0) 4 :: l)
+  | "sg" :: a :: b :: rest => do
+    let l ← parseP n rest
+    some (.commCopy (← a.toNat?) (← b.toNat?) (sbAddr (← a.toNat?) 0) 108 4 :: l)
+  | "sr" :: a :: b :: rest => do
+    let l ← parseP n rest
+    some (.commCopy (← a.toNat?) (← b.toNat?) (sbAddr (← a.toNat?) 0) (rbAddr (← b.toNat?) 0) 4 :: l)
+  | "bc" :: root :: rest => do
+    let l ← parseP n rest
+    let ro ← root.toNat?
+    some (((List.range n).filter (· != ro)).map (fun r => Seg.Ev.commCopy ro r (sbAddr ro 0) (sbAddr r 0) 4) ++ l)
+  | "ring" :: rest => do
+    let l ← parseP n rest
+    some ((List.range n).map (fun r => Seg.Ev.commCopy r ((r + 1) % n) (sbAddr r 0) (rbAddr ((r + 1) % n) 0) 4) ++ l)
+  | _ => none
+
+def loadRanks : List Seg.Ev → List Nat
+  | [] => []
+  | .load r _ :: rest => r :: loadRanks rest
+  | _ :: rest => loadRanks rest
+
+def judgeP (q a : List String) : Verdict :=
+  match q with
+  | n :: "I" :: rest =>
+    match n.toNat? with
+    | some n =>
+      let initS := rest.take 14
+      match parseP n (rest.drop 14), (initS.map String.toInt?).all Option.isSome with
+      | some evs, true =>
+        let iv := initS.filterMap String.toInt?
+        let s0 : Seg.St := Seg.setup ⟨fun o => match iv[o]? with | some v => v | none => 0, fun _ => 0, fun _ _ => 0, none,
+          fun _ => 0, none⟩ (List.range n)
+        match Seg.runWith (Seg.step cfgP) s0 evs with
+        | some (_, obs) =>
+          let tagged := (loadRanks evs).zip obs
+          let model := (List.range n).flatMap (fun r => "|" :: (tagged.filter (·.1 == r)).map (fun p => toString p.2))
+          if model = a then .ok
+          else .monfail s!"ranks read {a} but the private-globals model gives {model}"
+        | none => .bad
+      | _, _ => .bad
+    | none => .bad
+  | _ => .bad
+
+def judgeAll (q a : List String) : Verdict :=
+  match q with
+  | "P" :: rest => judgeP rest a
+  | _ => judge q a
+
 end SgVerif.C36
 
-def main : IO Unit := SgVerif.Proto.run SgVerif.C36.judge
+def main : IO Unit := SgVerif.Proto.run SgVerif.C36.judgeAll
